@@ -193,6 +193,13 @@ def run(ctx):
                                   "req_ttl": req_ttl, "dt": dt})
     big.stop()
     small.stop()
+    # t is the daemon's clock when the credential is DECODED: a request that waits in the work queue while the credential
+    # expires is judged expired (scenario shared with C07)
+    from props import c07 as _c07
+    qf = []
+    _c07.queued_across_expiry(ctx, orc, qf, dist)
+    for f in qf:
+        fails.append({"why": "decode time is not the daemon's clock at decode time: " + f["why"], "queued": True})
     ctx.cov["input_distribution"] = dist
     ctx.cov["traces_validated_against_impl"] = ctx.cov["evaluations"]
     # verdict
